@@ -692,6 +692,11 @@ def run(ctx):
     for n in keylens:
         for alg in R.ALGS:
             tasks.append({"part": "configs", "keylen": n, "alg": alg, "periods": periods, "labels": labels, "seed": seed})
+    # every key length 1..64 (every residue of the 5-byte base32 group and of the hex pair) on a thin config grid
+    for n in range(1, 65):
+        if n in keylens:
+            continue
+        tasks.append({"part": "configs", "keylen": n, "alg": R.ALGS[n % len(R.ALGS)], "periods": (30, 60), "labels": ("a",), "seed": seed})
     # ---- corruptions
     dp = ((6, 30), (8, 30), (6, 60), (10, 1)) if ctx.quick else ((6, 30), (7, 30), (8, 30), (6, 60), (10, 1), (9, 3600))
     li = (("a", None), ("u@h", "I s/%"), ("é", "日"))
